@@ -230,4 +230,65 @@ theorem run_append (t : Tables α) (fo fi : Nat) (deltaT v0 : α) (xs ys : List 
               simp only [Except.ok.injEq] at h₂
               subst h₂
               exact ⟨_, rfl, rfl, rfl, rfl, rfl⟩
+theorem steps_length (t : Tables α) (keep : Bool) (fo fi : Nat) (deltaT : α) :
+    ∀ (xs : List (StepIn α)) (v : α) (tg : List String) (r : α × List String × List (StepOut α)),
+      steps t keep fo fi deltaT v tg xs = .ok r → r.2.2.length = xs.length := by
+  intro xs
+  induction xs with
+  | nil => intro v tg r h; simp only [steps, pure, Except.pure, Except.ok.injEq] at h; subst h; rfl
+  | cons x xs ih =>
+    intro v tg r h
+    simp only [steps, bind, Except.bind] at h
+    cases hs : step t keep fo fi deltaT v tg x with
+    | error e => rw [hs] at h; simp at h
+    | ok q =>
+      obtain ⟨v1, tg1, o1⟩ := q
+      rw [hs] at h
+      simp only at h
+      cases hr : steps t keep fo fi deltaT v1 tg1 xs with
+      | error e => rw [hr] at h; simp at h
+      | ok q2 =>
+        obtain ⟨v2, tg2, o2⟩ := q2
+        rw [hr] at h
+        simp only [pure, Except.pure, Except.ok.injEq] at h
+        subst h
+        simp only [List.length_cons, ih v1 tg1 _ hr]
+
+/-- the outputs of the first part of a run are a prefix of the outputs of the whole run -/
+theorem run_prefix (t : Tables α) (keep : Bool) (fo fi : Nat) (deltaT v0 : α) (xs ys : List (StepIn α)) (r r₁ : RunOut α)
+    (h : run t keep fo fi deltaT v0 (xs ++ ys) = .ok r) (h₁ : run t keep fo fi deltaT v0 xs = .ok r₁) :
+    r.outs.take xs.length = r₁.outs := by
+  simp only [run] at h h₁
+  rw [steps_append] at h
+  cases hs1 : steps t keep fo fi deltaT v0 [] xs with
+  | error e => rw [hs1] at h₁; simp [bind, Except.bind] at h₁
+  | ok q1 =>
+    have hlen := steps_length t keep fo fi deltaT xs v0 [] q1 hs1
+    obtain ⟨v1, tg1, o1⟩ := q1
+    rw [hs1] at h h₁
+    simp only [bind, Except.bind, pure, Except.pure] at h h₁
+    cases hs2 : steps t keep fo fi deltaT v1 tg1 ys with
+    | error e => rw [hs2] at h; simp at h
+    | ok q2 =>
+      obtain ⟨v2, tg2, o2⟩ := q2
+      rw [hs2] at h
+      simp only at h
+      have e1 : r₁.outs = o1 := by
+        revert h₁
+        cases cappedPiecewise t v1 t.levels with
+        | error e => simp
+        | ok lv =>
+          cases cappedPiecewise t v1 t.areas with
+          | error e => simp
+          | ok ar => simp only [Except.ok.injEq]; intro h; subst h; rfl
+      have e2 : r.outs = o1 ++ o2 := by
+        revert h
+        cases cappedPiecewise t v2 t.levels with
+        | error e => simp
+        | ok lv =>
+          cases cappedPiecewise t v2 t.areas with
+          | error e => simp
+          | ok ar => simp only [Except.ok.injEq]; intro h; subst h; rfl
+      rw [e1, e2]
+      exact take_append_len hlen
 end OW.Proofs.StorageHot
